@@ -1,8 +1,10 @@
 package checks
 
 import (
+	"encoding/json"
 	"fmt"
 	"math/rand/v2"
+	"sort"
 	"strings"
 
 	"github.com/invopop/gobl/cbc"
@@ -11,6 +13,7 @@ import (
 	"github.com/invopop/gobl/tax"
 
 	"verif/internal/ev"
+	"verif/internal/gx"
 	"verif/internal/taxid"
 )
 
@@ -254,6 +257,91 @@ func (k *c13) variants(code string, rng *rand.Rand) {
 	}
 }
 
+// hosted puts a valid code on the customer of invoices issued under other
+// regimes: the document's regime must leave a foreign identity to the rules of
+// its own country (same country, same code after calculation, still valid).
+func (k *c13) hosted(code string, rng *rand.Rand) {
+	cc := k.sc.Country
+	if oracleUnsure(cc, code) != "" {
+		return
+	}
+	w := getWorld()
+	var all []string
+	for r := range w.defs.Regimes {
+		all = append(all, r)
+	}
+	sort.Strings(all)
+	hosts := []string{"FR", "EL", "IN", cc, all[rng.IntN(len(all))], all[rng.IntN(len(all))]}
+	for hi, host := range hosts {
+		reg := w.defs.Regimes[host]
+		if reg == nil {
+			continue
+		}
+		entered := code
+		if hi%2 == 1 {
+			entered = strings.ToLower(code[:len(code)/2] + "." + code[len(code)/2:])
+		}
+		inv := map[string]any{
+			"$schema": "https://gobl.org/draft-0/bill/invoice", "$regime": host, "code": "H-1", "issue_date": "2024-06-13", "currency": reg.Currency,
+			"supplier": map[string]any{"name": "Supplier", "tax_id": map[string]any{"country": host}},
+			"customer": map[string]any{"name": "Customer", "tax_id": map[string]any{"country": cc, "code": entered}},
+			"lines":    []any{map[string]any{"quantity": "1", "item": map[string]any{"name": "thing", "price": "100.00"}}},
+		}
+		docJSON, _ := json.Marshal(inv)
+		var out []byte
+		var cerr error
+		if pan, _ := Safely(func() {
+			env, err := gx.EnvelopDoc(docJSON)
+			if cerr = err; err == nil {
+				out, cerr = json.Marshal(env)
+			}
+		}); pan != nil {
+			k.cnt("panics")
+			continue
+		}
+		if cerr != nil {
+			k.cnt("hosted_calculation_refused")
+			continue
+		}
+		var e struct {
+			Doc struct {
+				Customer struct {
+					TaxID struct {
+						Country string `json:"country"`
+						Code    string `json:"code"`
+					} `json:"tax_id"`
+				} `json:"customer"`
+			} `json:"doc"`
+		}
+		if json.Unmarshal(out, &e) != nil {
+			continue
+		}
+		k.cnt("hosted_identities")
+		if host != cc {
+			k.cnt("hosted_identities_foreign")
+		}
+		got := e.Doc.Customer.TaxID
+		if got.Country != cc || got.Code != code {
+			cls := "rewritten"
+			if digitsOnly(got.Code) != digitsOnly(code) {
+				cls = "digits-altered"
+			}
+			k.c.R.Fail(fmt.Sprintf("%s:hosted:%s:under-%s", cc, cls, hostClass(host, cc)), fmt.Sprintf("%s identity %q entered as %q on the customer of a %s invoice comes out as %s %q", cc, code, entered, host, got.Country, got.Code), map[string]any{"country": cc, "code": code, "host": host, "doc": json.RawMessage(docJSON)})
+			continue
+		}
+		if ok, _, _ := realValid(got.Country, got.Code); !ok {
+			k.c.R.Fail(fmt.Sprintf("%s:hosted:invalid-after:under-%s", cc, hostClass(host, cc)), fmt.Sprintf("%s identity %q on a %s invoice is rejected after calculation", cc, code, host), map[string]any{"country": cc, "code": code, "host": host})
+		}
+	}
+}
+
+func hostClass(host, cc string) string {
+	if host == cc {
+		return "own-regime"
+	}
+	return host
+}
+
 // pipeline: the verdict on a code as entered, i.e. normalised and then validated.
 func pipelineValid(cc, code string) (ok bool, normalised string, pan any) {
 	n, p := realNormalize(cc, code)
@@ -398,6 +486,9 @@ func runC13(c *Ctx) {
 				k.compare(e, "transposition")
 			}
 			k.variants(code, rng)
+			if n%4 == 0 {
+				k.hosted(code, rng)
+			}
 			if n == 0 && part == 0 {
 				c.R.Sample(map[string]any{"country": cc, "valid_code": code, "rule": sc.Note})
 			}
@@ -436,5 +527,5 @@ func runC13(c *Ctx) {
 			c.R.Count(a, b)
 		}
 	})
-	c.Require("FR:fr_siren_pipeline_verdicts", "ES:both_accept", "BE:both_accept", "GB:both_accept", "NL:both_reject")
+	c.Require("ES:hosted_identities_foreign", "PT:hosted_identities_foreign", "FR:fr_siren_pipeline_verdicts", "ES:both_accept", "BE:both_accept", "GB:both_accept", "NL:both_reject")
 }
